@@ -103,6 +103,10 @@ class _DetSet:
 _CURRENT = threading.local()
 
 
+class _CaseAborted(Exception):
+    """The case cannot go on (a token could not even be opened): the violation is recorded"""
+
+
 class _Abandoned(BaseException):
     """Unwinds a controlled thread still blocked when its case ends"""
 
@@ -781,6 +785,8 @@ def run_case(case, scratch: Path) -> History:
             H.notes |= eng.notes
             H.log.append(eng.log)
             H.runs.append(eng)
+            if getattr(eng, "aborted", False):
+                break
             for j, m in eng.jobs.items():
                 if m.predone or (m.exits and m.exits[-1] == 0):
                     done.add(j)
@@ -826,10 +832,22 @@ def _run_one(case, scratch, run_index, done_before, prev=None, xp_name=None, end
                     (d / "stale.token").write_text(f"{tok['stale'][0]}\n{scratch / f'gone-job{ti}' / 'job'}\n")
                     eng.early_reclaim = bool(tok["stale"][1])
                     eng.notes.add("stale-token-file-at-start")
+                if tok.get("stale_empty") and run_index == 0:
+                    d = eng.tokdir(ti)
+                    d.mkdir(parents=True, exist_ok=True)
+                    (d / "dead.token").write_text("")
+                    eng.notes.add("empty-token-file-at-start")
                 if tok.get("preheld") and run_index == 0:
                     # a live job of another scheduler already holds part of the token when we open it
                     _foreign_preheld(eng, 50 + ti, ti, tok["preheld"][0], bool(tok["preheld"][1]))
-                t = CounterToken(f"t{ti}", eng.tokdir(ti), tok["total"])
+                try:
+                    t = CounterToken(f"t{ti}", eng.tokdir(ti), tok["total"])
+                except Exception as e:
+                    leftovers = sorted(p.name for p in eng.tokdir(ti).glob("*.token"))
+                    for prop in ("C09", "C06"):
+                        eng.viol(prop, f"token-cannot-be-opened:{type(e).__name__}", f"opening token {ti} (directory holding {leftovers}, notes {sorted(n for n in eng.notes if 'token-file' in n)}) raised {type(e).__name__}: {e}: no job depending on it can ever run")
+                    eng.aborted = True
+                    raise _CaseAborted()
                 eng.early_reclaim = False
                 t.ipc_lock = LockProxy(t.ipc_lock)
             else:
@@ -1067,6 +1085,8 @@ def _run_one(case, scratch, run_index, done_before, prev=None, xp_name=None, end
             while step(0):
                 pass
         _final_checks(eng)
+    except _CaseAborted:
+        pass
     finally:
         ENG = eng  # substitutes may still report during teardown
         try:
@@ -1170,7 +1190,10 @@ def _foreign_acquire(eng, f, ti, w, twostep, scheduler_dies):
     with fasteners.InterProcessLock(d / "token.lock"):
         used = 0
         for p in d.glob("*.token"):
-            used += int(p.read_text().split("\n")[0])
+            try:
+                used += int(p.read_text().split("\n")[0])
+            except ValueError:
+                pass  # content never written (its writer died first): holds nothing
         if not scheduler_dies:
             _foreign_watches_ours(eng, ti)
         if tok["total"] - used < w:
@@ -1477,7 +1500,8 @@ def _final_checks(eng):
         if tok["kind"] == "file":
             left = sorted(p.name for p in eng.tokdir(ti).glob("*.token"))
             live_foreign = sorted(f["path"].name for f in eng.foreign.values() if f["ti"] == ti and f["job"]["alive"])
-            dead_left = [n for n in left if n not in live_foreign]
+            # (an empty file left by a scheduler that died before writing it holds nothing)
+            dead_left = [n for n in left if n not in live_foreign and (eng.tokdir(ti) / n).read_text().strip()]
             if dead_left:
                 sig = "token-file-left"
                 if stuck_cause:
